@@ -181,10 +181,11 @@ def regular_stream(ctx, n):
         cx, cy = rng.randint(-5, 5), rng.randint(-5, 5)
         rad = rng.choice([1, 2, 2.5, 3])
         m = rng.choice([3, 4, 5, 6, 8])
-        desc = f"regular-polygon centre=({cx},{cy}) radius={rad} n={m}"
+        w = rng.choice([1.0, 1.0, 2.0, -1.0, 0.5])           # the centre may be any representative of the point
+        desc = f"regular-polygon centre=({cx},{cy}) [homogeneous factor {w}] radius={rad} n={m}"
         ctx.case(desc)
         ctx.count("regular:2d")
-        rp = call_impl(lambda: g.RegularPolygon(g.Point(cx, cy), rad, m))
+        rp = call_impl(lambda: g.RegularPolygon(g.Point(np.array([cx * w, cy * w, w])), rad, m))
         if rp[0] != "ok":
             ctx.disagree("C17:regular:constructor", desc, "polygon", rp[1:3], replay=[desc])
             continue
